@@ -6,6 +6,7 @@ import (
 	"fmt"
 	"io"
 	"sort"
+	"strings"
 	"sync/atomic"
 	"time"
 
@@ -64,6 +65,64 @@ func constructs() []construct {
 		{"ProcessParallel", func(ctx context.Context, in []int, w int, r *result) {
 			r.err = fun.SliceIterator(in).ProcessParallel(func(_ context.Context, v int) error { r.out = append(r.out, v); return nil }, nw(w)).Run(ctx)
 			r.ordered = w == 1
+		}},
+		// processors that honour their context (return ctx.Err() when it has ended): nothing
+		// cancels a run that nobody aborted, so they must behave like the plain ones
+		{"ProcessParallel/ctx-aware", func(ctx context.Context, in []int, w int, r *result) {
+			r.err = fun.SliceIterator(in).ProcessParallel(func(c context.Context, v int) error {
+				vs.Yield()
+				if err := c.Err(); err != nil {
+					return err
+				}
+				r.out = append(r.out, v)
+				return nil
+			}, nw(w)).Run(ctx)
+			r.ordered = w == 1
+		}},
+		{"itertool.ParallelForEach/ctx-aware", func(ctx context.Context, in []int, w int, r *result) {
+			r.err = itertool.ParallelForEach(ctx, fun.SliceIterator(in), func(c context.Context, v int) error {
+				vs.Yield()
+				if err := c.Err(); err != nil {
+					return err
+				}
+				r.out = append(r.out, v)
+				return nil
+			}, nw(w))
+			r.ordered = w == 1
+		}},
+		{"itertool.Map/ctx-aware", func(ctx context.Context, in []int, w int, r *result) {
+			it := itertool.Map(fun.SliceIterator(in), func(c context.Context, v int) (int, error) {
+				vs.Yield()
+				if err := c.Err(); err != nil {
+					return 0, err
+				}
+				return v, nil
+			}, nw(w))
+			_ = drain(ctx, it, &r.out)
+			r.err = it.Close()
+			r.ordered = w == 1
+		}},
+		// back-pressure: the consumer takes one item, lets the stage run until every worker is
+		// parked on the full buffer holding an item, and only then drains
+		{"ParallelBuffer/backpressure", func(ctx context.Context, in []int, w int, r *result) {
+			it := fun.SliceIterator(in).ParallelBuffer(w)
+			if v, err := it.ReadOne(ctx); err == nil {
+				r.out = append(r.out, v)
+				vs.Quiesce()
+			}
+			_ = drain(ctx, it, &r.out)
+			r.err = it.Close()
+			r.ordered = w == 1
+		}},
+		{"Buffer/backpressure", func(ctx context.Context, in []int, w int, r *result) {
+			it := fun.SliceIterator(in).Buffer(w - 1)
+			if v, err := it.ReadOne(ctx); err == nil {
+				r.out = append(r.out, v)
+				vs.Quiesce()
+			}
+			_ = drain(ctx, it, &r.out)
+			r.err = it.Close()
+			r.ordered = true
 		}},
 		{"itertool.ParallelForEach", func(ctx context.Context, in []int, w int, r *result) {
 			r.err = itertool.ParallelForEach(ctx, fun.SliceIterator(in), func(_ context.Context, v int) error { r.out = append(r.out, v); return nil }, nw(w))
@@ -217,6 +276,15 @@ func build(tier string) ([]runner.Instance, time.Duration) {
 	}
 	var out []runner.Instance
 	for _, c := range constructs() {
+		if strings.HasSuffix(c.name, "/backpressure") {
+			// inputs longer than buffer + workers (+1 taken by the consumer), smaller bound
+			for w := 1; w <= maxW; w++ {
+				for n := 2*w + 1; n <= 2*w+2; n++ {
+					out = append(out, runner.Instance{Group: c.name, Name: fmt.Sprintf("%s/n=%d,w=%d", c.name, n, w), Bound: bound - 1, Scenario: scenario(c, n, w)})
+				}
+			}
+			continue
+		}
 		for n := 0; n <= maxN; n++ {
 			for w := 1; w <= maxW; w++ {
 				out = append(out, runner.Instance{Group: c.name, Name: fmt.Sprintf("%s/n=%d,w=%d", c.name, n, w), Bound: bound, Scenario: scenario(c, n, w)})
